@@ -13,6 +13,7 @@ import Spydr.Verilog.RoundTripStruct
 import Spydr.Verilog.RoundTripLeafF
 import Spydr.Verilog.RoundTripLeafI
 import Spydr.Verilog.RoundTripLeafJ
+import Spydr.Verilog.RoundTripHierE
 
 #print axioms Spydr.Verilog.getWires_spec
 #print axioms Spydr.Verilog.getWires_spec_single_all
@@ -146,3 +147,12 @@ import Spydr.Verilog.RoundTripLeafJ
 #print axioms Spydr.Verilog.Elab.exNetBB_full
 #print axioms Spydr.Verilog.Elab.nobb_row_shrinks
 #print axioms Spydr.Verilog.Elab.exNetRB_full
+#print axioms Spydr.Verilog.Elab.instantiate_firstG
+#print axioms Spydr.Verilog.Elab.instStep2_runG
+#print axioms Spydr.Verilog.Elab.insts_foldG
+#print axioms Spydr.Verilog.Elab.declStepA_run
+#print axioms Spydr.Verilog.Elab.wire_foldG
+#print axioms Spydr.Verilog.Elab.elabModule_lateW
+#print axioms Spydr.Verilog.Elab.late_fold
+#print axioms Spydr.Verilog.Elab.elabDesign_hier
+#print axioms Spydr.Verilog.Elab.exHier_builds
